@@ -1472,8 +1472,15 @@ R.mutant("benign-str2-version-call-drops-flag-after-unconditional-pk-call", PERS
          sub("            if mapper.version_id_col is not None:\n" + _VERSION_RD + "            elif do_executemany:\n" + _PK_RD,
              "            if do_executemany:\n" + _PK_RD + "            if mapper.version_id_col is not None:\n"
              "                statement = statement.return_defaults(mapper.version_id_col)\n"), None)
+
+
+def _own_page(text):
+    import re
+    return re.sub(r"\bbatch_size\b", "rows_per_page", text)
+
+
 R.mutant("benign-str2-page-size-in-a-new-local", COMP, chain(
-    sub(_WHILE_HEAD, _WHILE_HEAD.replace("batch_size", "rows_per_page")),
-    sub(_COUNTER_INIT, "        rows_per_page = batch_size\n" + _COUNTER_INIT.replace("batch_size", "rows_per_page"))), None)
+    sub(_WHILE_HEAD, _own_page(_WHILE_HEAD)),
+    sub(_COUNTER_INIT, "        rows_per_page = batch_size\n" + _own_page(_COUNTER_INIT))), None)
 R.mutant("benign-str2-offset-loop-page-size-in-a-new-local", COMP,
-         _offset_loop(head=_FOR_HEAD.replace("batch_size", "rows_per_page"), init="        rows_per_page = batch_size\n" + _TB.replace("batch_size", "rows_per_page") + "\n"), None)
+         _offset_loop(head=_own_page(_FOR_HEAD), init="        rows_per_page = batch_size\n" + _own_page(_TB) + "\n"), None)
